@@ -171,6 +171,8 @@ def partial(case, linker, groups, objs, nest):
     combined again. Returns (inputs for the final link in order, list of produced files,
     {produced file: its inputs}, failure Result or None)."""
     d = case.dir("r-" + linker)
+    xa = getattr(case, "r_extra", []) if linker == "wild" else []
+    xe = getattr(case, "r_env", None) if linker == "wild" else None
     produced, made_from = [], {}
     outs = []
     for gi, g in enumerate(groups):
@@ -179,7 +181,7 @@ def partial(case, linker, groups, objs, nest):
             continue
         o = tools.fresh(os.path.join(d, f"g{gi}.o"))
         ins = [objs[j] for j in g]
-        r = tools.link(linker, ["-r", "-o", o, *ins])
+        r = tools.link(linker, ["-r", "-o", o, *ins, *xa], extra_env=xe)
         if not r.ok:
             return None, produced, made_from, r
         produced.append(o)
@@ -190,7 +192,7 @@ def partial(case, linker, groups, objs, nest):
             continue
         o = tools.fresh(os.path.join(d, f"n{a}_{b}.o"))
         ins = [outs[a], outs[b]]
-        r = tools.link(linker, ["-r", "-o", o, *ins])
+        r = tools.link(linker, ["-r", "-o", o, *ins, *xa], extra_env=xe)
         if not r.ok:
             return None, produced, made_from, r
         produced.append(o)
@@ -230,6 +232,13 @@ def one_program(ctx, i):
         prog = pg.gen_program(r, features=feats, want_lib=False)
         cm = r.choice(pg.CODE_MODELS)
         case = Case(ctx, i)
+        # how wild's partial links partition their inputs into processing groups
+        rs = rng("C27", ctx.seed, i, "sched")
+        how = rs.choice(["default", "threads=1", "files-per-group=2", "files-per-group=64", "threads=16"])
+        case.r_extra = {"threads=1": ["--threads=1"], "threads=16": ["--threads=16"]}.get(how, [])
+        case.r_env = {"files-per-group=2": {"WILD_FILES_PER_GROUP": "2"}, "files-per-group=64": {"WILD_FILES_PER_GROUP": "64"}}.get(how)
+        if attempt == 0:
+            ctx.note("partial-link-grouping:" + how)
         built = prog.build(ctx, cm)
         objs = [b.obj for b in built]
         n = len(objs)
